@@ -189,10 +189,18 @@ class DrvEngine : public sim::Engine {
     sim::RunResult r;
     const drvsim::Property* p = drvsim::find_property(sc["prop"].as_str());
     if (!p) { r.verdict = "BAD_SCENARIO"; r.detail = "unknown property"; return r; }
-    if (p->run) return p->run(sc);
+    auto hang_rule = [&](sim::RunResult& rr) {
+      // whatever the property: a run that had to be cut off by the step / allocation / CPU budget did not terminate
+      if (sim::g.step_budget_exceeded && rr.verdict == "OK") {
+        rr.verdict = "HANG"; rr.sig = sc["prop"].as_str() + ":HANG:budget";
+        rr.detail = std::string("the simulated run was cut off by the ") + (sim::g.tainted ? "CPU-time" : "step/allocation") + " budget";
+      }
+    };
+    if (p->run) { r = p->run(sc); hang_rule(r); return r; }
     drvsim::RunRecord rec = drvsim::run_driver(sc);
     drvsim::fill_result(rec, r);
     p->judge(sc, rec, r);
+    hang_rule(r);
     if (sc["nl_binary"].as_bool()) { r.stats.set("input.binary_nl", 1); r.trace_sig = sim::fnv1a(std::string("binary-nl"), r.trace_sig); }
     if (::getenv("VERIF_DUMP")) drvsim::dump_record(rec);
     return r;
